@@ -63,6 +63,7 @@ func TestVerifC07CacheNode(t *testing.T) {
 		var rowMu sync.Mutex
 		rows := map[int]*c07Row{}
 		return verifc07.Target{
+			Corrupt: func(key int) { mr.Set(fmt.Sprintf("c07:%d", key), "{not json") },
 			Invoke: func(c *verifc07.Call, fn func() (any, error)) (any, string, error) {
 				prow := new(c07Row)
 				if reuse {
